@@ -281,6 +281,13 @@ pub fn judge_c01(o: &Outcome) -> Option<(String, String)> {
 
 /// C04: emitted TS vs emitted wasm
 pub fn judge_c04(o: &Outcome) -> Option<(String, String)> {
+  // TypeScript that cannot even be tokenised never runs, while the wasm of the same program does
+  if let (Some(w), None, Some(e)) = (&o.wasm_trace, &o.ts_trace, &o.erase_err) {
+    let ref_ok = o.ref_trace.as_ref().map(|r| !r.ub.any() && r.conclusive()).unwrap_or(true);
+    if e.starts_with("lex:") && ref_ok && w.conclusive() && !matches!(w.ending, Ending::Fault { .. }) {
+      return Some(("ts-vs-wasm:only-typescript-faults:invalid-typescript".into(), format!("the emitted wasm runs ({} lines, {}) but the emitted TypeScript cannot be tokenised: {e}", w.lines.len(), ending_class(&w.ending))));
+    }
+  }
   let (Some(w), Some(t)) = (&o.wasm_trace, &o.ts_trace) else { return None };
   if let Some(r) = &o.ref_trace {
     if r.ub.any() || !r.conclusive() {
